@@ -389,7 +389,7 @@ func typeShort(t types.Type) string {
 		t = p.Elem()
 	}
 	if n, ok := t.(*types.Named); ok {
-		return n.Obj().Name()
+		return canonType(n)
 	}
 	return t.String()
 }
